@@ -379,7 +379,15 @@ collide(int bits, unsigned value, int count, int len, unsigned seed, int binary)
 
 /* ------------------------------------------------------------- vector */
 
+/* two element types: a machine word, and a 24-byte record whose tail is a
+ * pattern derived from the value (checked whenever an element is read) */
+struct rec {
+	unsigned long	v;
+	unsigned char	tail[16];
+};
+
 static VECTOR(unsigned long) vec;
+static VECTOR(struct rec) vec2;
 static struct arena *arena;
 static struct arena_scope scope;
 static int use_arena;
@@ -390,82 +398,121 @@ cmp_ul(const unsigned long *a, const unsigned long *b)
 	return *a < *b ? -1 : *a > *b;
 }
 
-static void
-vec_hdr(void)
+static int
+cmp_rec(const struct rec *a, const struct rec *b)
 {
-	printf(" #%zu:%zu\n", VECTOR_LENGTH(vec), ptov(vec)->vc_siz);
+	return a->v < b->v ? -1 : a->v > b->v;
 }
 
 static void
-vec_op(int argc, char **w)
+rec_set(struct rec *r, unsigned long v)
 {
-	unsigned long *p;
+	int i;
 
-	if (strcmp(w[0], "VR") == 0) {
-		size_t n = strtoul(w[1], NULL, 10), len = VECTOR_LENGTH(vec);
-		int error = VECTOR_RESERVE(vec, n);
-
-		printf("status %d", error);
-		if (!error && n < (1u << 24)) {
-			/* the reserved slots are the caller's to fill in place */
-			memset(vec + len, 0xa5, n * sizeof(*vec));
-		}
-	} else if (strcmp(w[0], "VA") == 0) {
-		unsigned long v = strtoul(w[1], NULL, 10);
-
-		p = VECTOR_ALLOC(vec);
-		if (p == NULL)
-			printf("slot -");
-		else {
-			*p = v;
-			printf("slot %zu %lu", (size_t)(p - vec), *p);
-		}
-	} else if (strcmp(w[0], "VC") == 0) {
-		p = VECTOR_CALLOC(vec);
-		if (p == NULL)
-			printf("slot -");
-		else
-			printf("slot %zu %lu", (size_t)(p - vec), *p);
-	} else if (strcmp(w[0], "VP") == 0) {
-		p = VECTOR_POP(vec);
-		if (p == NULL)
-			printf("slot -");
-		else
-			printf("slot %zu %lu", (size_t)(p - vec), *p);
-	} else if (strcmp(w[0], "VX") == 0) {
-		VECTOR_CLEAR(vec);
-		printf("unit");
-	} else if (strcmp(w[0], "VS") == 0) {
-		VECTOR_SORT(vec, cmp_ul);
-		printf("unit");
-	} else if (strcmp(w[0], "VF") == 0) {
-		p = VECTOR_FIRST(vec);
-		if (p == NULL)
-			printf("slot -");
-		else
-			printf("slot %zu %lu", (size_t)(p - vec), *p);
-	} else if (strcmp(w[0], "VL") == 0) {
-		p = VECTOR_LAST(vec);
-		if (p == NULL)
-			printf("slot -");
-		else
-			printf("slot %zu %lu", (size_t)(p - vec), *p);
-	} else if (strcmp(w[0], "VN") == 0) {
-		printf("len %zu", VECTOR_LENGTH(vec));
-	} else if (strcmp(w[0], "VD") == 0) {
-		size_t i;
-
-		printf("items ");
-		if (VECTOR_EMPTY(vec))
-			printf("-");
-		for (i = 0; i < VECTOR_LENGTH(vec); i++)
-			printf("%s%lu", i ? "," : "", vec[i]);
-	} else {
-		printf("bad-op");
-	}
-	(void)argc;
-	vec_hdr();
+	r->v = v;
+	for (i = 0; i < 16; i++)
+		r->tail[i] = (unsigned char)((v >> (i % 8 * 8)) ^ (0x5a + i));
 }
+
+static unsigned long
+rec_get(const struct rec *r, int zeroed)
+{
+	struct rec want;
+	static const unsigned char zero[16];
+
+	rec_set(&want, r->v);
+	if (zeroed ? (r->v != 0 || memcmp(r->tail, zero, 16) != 0) : memcmp(r->tail, want.tail, 16) != 0)
+		oracle("a 24-byte vector element holding %lu lost the bytes behind its first word", r->v);
+	return r->v;
+}
+
+/* zeroed[i]: element i came from VECTOR_CALLOC and was never stored to */
+static unsigned char zeroed[1 << 20];
+
+#define VEC_OPS(NAME, VC, ELEM, SET, GET, CMP, WIDE)						\
+static void											\
+NAME(int argc, char **w)									\
+{												\
+	ELEM *p;										\
+	const char *op = w[0] + 1;								\
+												\
+	if (strcmp(op, "R") == 0) {								\
+		size_t n = strtoul(w[1], NULL, 10), len = VECTOR_LENGTH(VC);			\
+		int error = VECTOR_RESERVE(VC, n);						\
+												\
+		printf("status %d", error);							\
+		if (!error && n < (1u << 22))							\
+			memset(VC + len, 0xa5, n * sizeof(*VC));				\
+	} else if (strcmp(op, "A") == 0) {							\
+		unsigned long v = strtoul(w[1], NULL, 10);					\
+												\
+		p = VECTOR_ALLOC(VC);								\
+		if (p == NULL)									\
+			printf("slot -");							\
+		else {										\
+			SET(p, v);								\
+			if (WIDE) zeroed[p - VC] = 0;						\
+			printf("slot %zu %lu", (size_t)(p - VC), GET(p, 0));			\
+		}										\
+	} else if (strcmp(op, "C") == 0) {							\
+		p = VECTOR_CALLOC(VC);								\
+		if (p == NULL)									\
+			printf("slot -");							\
+		else {										\
+			if (WIDE) zeroed[p - VC] = 1;						\
+			printf("slot %zu %lu", (size_t)(p - VC), GET(p, 1));			\
+		}										\
+	} else if (strcmp(op, "P") == 0) {							\
+		p = VECTOR_POP(VC);								\
+		if (p == NULL)									\
+			printf("slot -");							\
+		else										\
+			printf("slot %zu %lu", (size_t)(p - VC), GET(p, WIDE && zeroed[p - VC]));\
+	} else if (strcmp(op, "X") == 0) {							\
+		VECTOR_CLEAR(VC);								\
+		printf("unit");									\
+	} else if (strcmp(op, "S") == 0) {							\
+		if (WIDE) {									\
+			/* calloc'ed records get their pattern before they are moved around */	\
+			size_t i;								\
+			for (i = 0; i < VECTOR_LENGTH(VC); i++)					\
+				if (zeroed[i]) { GET(VC + i, 1); SET(VC + i, 0); zeroed[i] = 0; }	\
+		}										\
+		VECTOR_SORT(VC, CMP);								\
+		printf("unit");									\
+	} else if (strcmp(op, "F") == 0) {							\
+		p = VECTOR_FIRST(VC);								\
+		if (p == NULL)									\
+			printf("slot -");							\
+		else										\
+			printf("slot %zu %lu", (size_t)(p - VC), GET(p, WIDE && zeroed[p - VC]));\
+	} else if (strcmp(op, "L") == 0) {							\
+		p = VECTOR_LAST(VC);								\
+		if (p == NULL)									\
+			printf("slot -");							\
+		else										\
+			printf("slot %zu %lu", (size_t)(p - VC), GET(p, WIDE && zeroed[p - VC]));\
+	} else if (strcmp(op, "N") == 0) {							\
+		printf("len %zu", VECTOR_LENGTH(VC));						\
+	} else if (strcmp(op, "D") == 0) {							\
+		size_t i;									\
+												\
+		printf("items ");								\
+		if (VECTOR_EMPTY(VC))								\
+			printf("-");								\
+		for (i = 0; i < VECTOR_LENGTH(VC); i++)						\
+			printf("%s%lu", i ? "," : "", GET(VC + i, WIDE && zeroed[i]));		\
+	} else {										\
+		printf("bad-op");								\
+	}											\
+	(void)argc;										\
+	printf(" #%zu:%zu\n", VECTOR_LENGTH(VC), ptov(VC)->vc_siz);				\
+}
+
+#define UL_SET(p, v) (*(p) = (v))
+#define UL_GET(p, z) (*(p))
+VEC_OPS(vec_op, vec, unsigned long, UL_SET, UL_GET, cmp_ul, 0)
+VEC_OPS(vec2_op, vec2, struct rec, rec_set, rec_get, cmp_rec, 1)
 
 /* ------------------------------------------------------------- buffer */
 
@@ -629,7 +676,7 @@ main(void)
 	int argc;
 
 	setvbuf(stdout, NULL, _IOFBF, 1 << 16);
-	printf("PARAMS %zu %zu\n", sizeof(struct vector), sizeof(unsigned long));
+	printf("PARAMS %zu %zu %zu\n", sizeof(struct vector), sizeof(unsigned long), sizeof(struct rec));
 	while (getline(&line, &cap, stdin) > 0) {
 		argc = splitwords(line, w, 16);
 		if (argc == 0)
@@ -647,8 +694,9 @@ main(void)
 				arena = arena_alloc();
 				scope = arena_scope_enter(arena);
 				ARENA_VECTOR_INIT(&scope, vec, strtoul(w[2], NULL, 10));
+				ARENA_VECTOR_INIT(&scope, vec2, strtoul(w[2], NULL, 10));
 			} else {
-				if (VECTOR_INIT(vec))
+				if (VECTOR_INIT(vec) || VECTOR_INIT(vec2))
 					return 3;
 			}
 			bf = new_buffer(strtoul(w[3], NULL, 10));
@@ -657,6 +705,8 @@ main(void)
 			    (unsigned)strtoul(w[5], NULL, 10), atoi(w[6]));
 		} else if (w[0][0] == 'V') {
 			vec_op(argc, w);
+		} else if (w[0][0] == 'W') {
+			vec2_op(argc, w);
 		} else if (w[0][0] == 'B') {
 			buf_op(argc, w);
 		} else {
@@ -678,6 +728,8 @@ main(void)
 	} else {
 		if (vec != NULL)
 			VECTOR_FREE(vec);
+		if (vec2 != NULL)
+			VECTOR_FREE(vec2);
 		if (bf != NULL)
 			buffer_free(bf);
 	}
